@@ -5,7 +5,9 @@ import gen, cases
 def run(R):
     if not R.build():
         return
-    R.lean(["C03", "C03Step", "C03Loop"])
+    R.lean(["C03", "C03Step", "C03Loop", "C03Run"])
+    import hunted
+    hunted.run(R, "C03")
     quick = R.tier == "quick"
     rng = R.rng
     # T2 + completeness oracle on every answer of the implementation
